@@ -1,5 +1,6 @@
 """C06 - JSON/XDL decoding is total, memory-safe, chunk-independent and JSON-conformant
 (spec/JsonText.tla, JsonTextGen.tla, JsonTextXdl.tla, XdlSM.tla + XdlSMRefine/XdlSMRefineXdl/XdlSMExplore, Trace_JsonTextDec.tla)."""
+import concurrent.futures as cf
 import os
 import re
 import subprocess
@@ -67,9 +68,13 @@ def run(ctx):
     ctx.rule = ("one case per transition of the generator / state-machine graphs (a text with its classification and expected "
                 "value); non-trivial = text of >= 2 bytes; distinct = distinct case lines (hash)")
     # -- design level: the transcribed state machine refines generator + recognizer ----------------------------------
-    # (vacuity of the generator actions is measured in the generator runs below)
-    ctx.model("XdlSMRefine", "MC_XdlSMRefine_" + tier, timeout=ctx.pick(600, 3000), xss="512m", xmx="8g", must_cover=False)
-    ctx.model("XdlSMRefineXdl", "MC_XdlSMRefineXdl_" + tier, timeout=ctx.pick(600, 3000), xss="512m", xmx="8g", must_cover=False)
+    # (vacuity of the generator actions is measured in the generator runs below; the two runs are independent)
+    def refine(spec):
+        return ctx.model(spec, "MC_%s_%s" % (spec, tier), timeout=ctx.pick(600, 3000), xss="512m", xmx="6g", must_cover=False,
+                         workers=max(2, vlib.NCPU // 2))
+
+    with cf.ThreadPoolExecutor(2) as ex:
+        list(ex.map(refine, ["XdlSMRefine", "XdlSMRefineXdl"]))
     # the pinned design (a '/' inside a quoted key opens a comment) must be refuted by TLC itself
     r = vlib.tlc("XdlSMRefine", "MC_XdlSMRefine_defect", timeout=600, xss="512m", xmx="4g")
     if r.violated() != "SMAgree":
@@ -85,6 +90,11 @@ def run(ctx):
         ctx.replay(rep, cases, label="R/" + cfg, timeout=ctx.pick(900, 5400))
         os.unlink(cases)
     ctx.exhaustive = True
+    # -- V: mutated documents and random bytes through the real decoder, classified by the recognizer --------------------
+    rec = vlib.build_harness(lib, "c06_record", ["c06_record.cpp"])
+    files = ctx.record(rec, ctx.pick(8, 32), ctx.pick(700, 6000), "V/JsonTextDec")
+    ctx.validate_traces("Trace_JsonTextDec", "Trace_JsonTextDec", files, label="V/JsonTextDec", timeout=ctx.pick(600, 3000),
+                        xss="512m", xmx="4g")
     ctx.assumptions += [
         "exhaustive within the constants of the MC_*_%s.cfg files; beyond them only recorded random/mutated inputs apply" % tier,
         "memory errors, leaks and hangs are observed by ASan/LSan and a per-case time limit on the replayed inputs, not decided by the model",
@@ -94,6 +104,8 @@ def run(ctx):
 
 def replay(path):
     lib = vlib.build_lib("asan")
+    if os.path.basename(path).startswith("rec-") or path.endswith(".ndjson"):
+        return vlib.replay_recorded(path, lib, "c06_record", ["c06_record.cpp"], "Trace_JsonTextDec", "Trace_JsonTextDec")
     rep = vlib.build_harness(lib, "c06_replay", HS)
     r = subprocess.run([rep, "--single", path], env=vlib.run_env())
     return 1 if r.returncode == 1 else (0 if r.returncode == 0 else 2)
